@@ -17,7 +17,7 @@ func init() {
 func c18empty(c *core.Ctx) {
 	const R = "C18.empty"
 	c.Rule(R, "every constant-index byte read in RSchema.doCompile (content.Byte(0), the last byte) is dominated by a guard on the content length; the regex notation has no recover, so an unguarded read of an empty text escapes as a panic")
-	c.Floor(R, 2)
+	c.Floor(R, 1)
 	for _, s := range elemSites(c) {
 		if !strings.Contains(s.fn, "notations/regex.RSchema") {
 			continue
